@@ -83,6 +83,47 @@ def main():
         sweep(sys.argv[2]); return
     sel = sys.argv[1:]
     sh(os.path.join(V, "bin/build"))
+    from concurrent.futures import ThreadPoolExecutor
+    todo = [m for m in mutants() if not sel or any(x in m[0] for x in sel)]
+    def one(m):
+        name, pf, props, expect = m
+        if not props:
+            return ("SKIP", name, "no property / not claimed caught")
+        scratch = tempfile.mkdtemp(prefix="nsmut.")
+        try:
+            work = os.path.join(scratch, "repo")
+            os.makedirs(work)
+            sh("git -C /repo archive HEAD | tar -x -C %s" % work)
+            r = sh("patch -p1 --no-backup-if-mismatch < %s" % pf, cwd=work)
+            if r.returncode != 0:
+                return ("FAIL", name, "patch does not apply\n" + r.stdout + r.stderr)
+            r = sh("go build ./... ", cwd=os.path.join(work, "go"))
+            if r.returncode != 0:
+                return ("FAIL", name, "mutant does not compile\n" + r.stderr)
+            env = dict(ENV, VERIF_REPO=work, VERIF_EVIDENCE_DIR=os.path.join(scratch, "ev"))
+            out_all = ""
+            for prop in props:
+                if prop == "C19":
+                    r = sh("python3 %s/shell/c19.py quick" % V, env=env)
+                else:
+                    r = sh("%s/bin/nscheck -property %s -tier quick" % (V, prop), env=env)
+                out_all += r.stdout
+                if r.returncode == 1 and "VIOLATION property=%s" % prop in r.stdout and all(e in r.stdout for e in expect):
+                    return ("ok", name, "caught by " + ",".join(props))
+            return ("FAIL", name, "not caught (expected %s)\n%s" % (expect, out_all[-1200:]))
+        finally:
+            shutil.rmtree(scratch, ignore_errors=True)
+    fails = 0
+    with ThreadPoolExecutor(max_workers=int(os.environ.get("SELFTEST_JOBS", "6"))) as ex:
+        for st, name, msg in ex.map(one, todo):
+            print("%-4s %s: %s" % (st, name, msg))
+            if st == "FAIL":
+                fails += 1
+    print("selftest: %d mutants, %d failures" % (len(todo), fails))
+    sys.exit(1 if fails else 0)
+
+def _old_main_unused():
+    sel = []
     scratch = tempfile.mkdtemp(prefix="nsmut.")
     fails = 0
     try:
